@@ -1,9 +1,14 @@
 """C08 — TSDB record encoding: generators, implementation runner, direct oracle."""
 import datetime
+import gzip as _gzip
 import itertools
+import json
 import math
+import os
 import re
+import shutil
 import struct
+import tempfile
 import warnings
 
 from .common import paths
@@ -140,6 +145,8 @@ def py_val(v):
         return uncps(v["str"])
     if "date" in v:
         return datetime.datetime(*v["date"])
+    if "dateonly" in v:
+        return datetime.date(*v["dateonly"])
     if "float" in v:
         return struct.unpack("<d", struct.pack("<Q", v["float"]))[0]
     raise ValueError(v)
@@ -187,28 +194,41 @@ def well_escaped(t):
     return True
 
 
+TODAY_NOW = re.compile(r":?(today|now)")
+
+
 def gen_row(rng):
     n = rng.randrange(1, 6)
     types, names, vals = [], [], []
     for i in range(n):
         t = rng.choice([":integer", ":string", ":date", ":string"])
         types.append(t)
-        names.append(rng.choice(["i-id", "i-input", "i-date", "a", "b", "c%d" % i]))
+        names.append(rng.choice(["i-id", "i-input", "i-date", "i-wf", "a", "b", "c%d" % i]))
         r = rng.random()
         if r < 0.2:
             vals.append(None)
-        elif t == ":integer":
-            vals.append({"int": str(gen_int(rng))})
-        elif t == ":string":
-            vals.append({"str": cps(gen_string(rng, 5))})
+        elif r < 0.92:
+            vals.append(gen_fitting(rng, t))
         else:
-            vals.append({"date": gen_dt(rng)})
+            # a value whose Python type does not fit the column: stored as str(value), cast on access
+            v = gen_fitting(rng, rng.choice([":integer", ":string", ":date"]))
+            if "str" in v and TODAY_NOW.match(uncps(v["str"])):
+                v = None
+            vals.append(v)
+    if rng.random() < 0.04:
+        # Row.__init__ rejects a count mismatch
+        if rng.random() < 0.5:
+            vals = vals[:-1]
+        else:
+            vals = vals + [None]
     k = rng.random()
     ri = lambda: rng.choice([None, None] + list(range(-n - 2, n + 3)))
-    if k < 0.15:
+    if k < 0.12:
         q = {"kind": "iter"}
-    elif k < 0.25:
+    elif k < 0.2:
         q = {"kind": "data"}
+    elif k < 0.3:
+        q = {"kind": rng.choice(["str", "str", "str", "len", "keys"])}
     elif k < 0.5:
         q = {"kind": "idx", "i": rng.randrange(-n - 2, n + 2)}
     elif k < 0.7:
@@ -219,7 +239,7 @@ def gen_row(rng):
 
 
 CODED = {"i-wf": "1", "i-difficulty": "1", "polarity": "-1"}   # the documented coded attributes, restated
-FIELD_NAMES = ["i-id", "i-input", "i-date", "i-wf", "i-difficulty", "polarity", "a", "b"]
+FIELD_NAMES = ["i-id", "i-input", "i-date", "i-wf", "i-difficulty", "polarity", "a", "b", "I-WF", "POLARITY"]
 DTYPES = [":integer", ":string", ":date"]
 
 
@@ -280,6 +300,165 @@ def gen_typed(rng):
         line = gen_string(rng, 8)
     line += rng.choice(["", "", "\n"])
     return {"kind": "tsplit", "op": "tsplit", "fields": jfields(fields), "s": cps(line)}
+
+
+BIG_INTS = [2**31 - 1, 2**31, 2**32 + 1, 2**53 - 1, 2**53, 2**53 + 1, 2**63 - 1, 2**63, 2**63 + 1, 2**64 - 1, 2**64,
+            2**64 + 1, 10**18 + 1, 10**19, 10**30 + 7, 2**127 + 1, 12345678901234567890123]
+BIG_INTS = BIG_INTS + [-x for x in BIG_INTS]
+# every combination of zero / non-zero hour, minute, second (only 0:0:0 drops the time part), with boundary values
+HMS_COMBOS = [(h, m, s_) for h in (0, 1, 23) for m in (0, 1, 59) for s_ in (0, 1, 30, 59)]
+# what may follow a backslash besides \ s n: controls (incl. raw newline), other line boundaries, near misses
+AFTER_BS = [chr(c) for c in range(0, 32)] + ["\x7f", "\x85", "\xa0", "\u2028", "\u2029", "S", "N", "t", "r", "0", "@", " ",
+                                           "/", "\U0001F600"]
+
+
+def gen_file(rng):
+    """records written with tsdb.write and read back through tsdb.open / Database (plain and gzip, one call or
+    write + append), right and (rarely) wrong column counts, fitting and non-fitting values, 0..6 records"""
+    n = rng.choice([0, 1, 1, 2, 3, 3, 4])
+    fields = [(rng.choice(FIELD_NAMES), rng.choice(DTYPES)) for _ in range(n)]
+    k = rng.choice([0, 1, 1, 2, 3, 4, 6])
+    recs = []
+    for _ in range(k):
+        m = n if rng.random() < 0.96 else max(0, n + rng.choice([-1, 1]))
+        if n == 0:
+            m = rng.randrange(0, 4)
+        rec = []
+        for i in range(m):
+            t = fields[i][1] if i < n else rng.choice(DTYPES)
+            r = rng.random()
+            if r < 0.2:
+                rec.append(None)
+            elif r < 0.93:
+                rec.append(gen_fitting(rng, t))
+            else:
+                v = gen_fitting(rng, rng.choice(DTYPES))
+                if "str" in v and TODAY_NOW.match(uncps(v["str"])):
+                    v = None
+                rec.append(v)
+        recs.append(rec)
+    gz = rng.random() < 0.3
+    enc = rng.choice([None, None, None, "utf-8", "latin-1", "utf-16-le", "utf-32-be"])
+    if enc == "latin-1" and any(c > 255 for r in recs for v in r if v and "str" in v for c in v["str"]):
+        enc = "utf-16-le"
+    return {"kind": "file", "op": "file", "fields": jfields(fields), "recs": recs, "gzip": gz,
+            "append": None if gz or rng.random() < 0.6 else rng.randrange(0, k + 1),
+            "via": rng.choice(["open", "db"]) if n else "open", "encoding": enc}
+
+
+def gen_mkrec(rng):
+    n = rng.choice([0, 1, 2, 3, 3, 4, 5])
+    fields = [(rng.choice(FIELD_NAMES), rng.choice(DTYPES)) for _ in range(n)]
+    keys = [k for k in FIELD_NAMES + ["zz", "", "I-ID", "i-id "] if rng.random() < 0.45]
+    rng.shuffle(keys)
+    colmap = []
+    for k in keys:
+        r = rng.random()
+        colmap.append({"k": cps(k), "v": None if r < 0.2 else gen_fitting(rng, rng.choice(DTYPES))})
+    return {"kind": "mkrec", "op": "mkrec", "fields": jfields(fields), "colmap": colmap}
+
+
+def gen_fmt(rng):
+    """tsdb.format with an explicit default and with values that do not fit the datatype"""
+    dt = rng.choice(DTYPES)
+    v = None if rng.random() < 0.4 else gen_fitting(rng, rng.choice(DTYPES))
+    d = rng.choice([None, None, "", "1", "-1", "0", "x@y", "\n"])
+    return {"kind": "fmt", "op": "format", "dt": dt, "v": v, "default": None if d is None else cps(d)}
+
+
+def gen_lines(rng):
+    """text with line-boundary look-alikes, read back line by line through tsdb.open"""
+    parts = []
+    for _ in range(rng.randrange(0, 7)):
+        parts.append(rng.choice(["\n", "\n", "\r", "\r\n", "\x0b", "\x0c", "\x1c", "\x1d", "\x1e", "\x85", "\u2028", "\u2029",
+                                 "a", "@", "\\n", "b@c", ""]))
+    return {"kind": "lines", "op": "lines", "s": cps("".join(parts)), "gzip": rng.random() < 0.3}
+
+
+def seq_cases():
+    """several calls in one case: an error path followed by normal calls (state left behind by a raise would show in the
+    later answers), repeated calls (purity); long inputs"""
+    def u(t):
+        return {"kind": "unescape", "op": "unescape", "s": cps(t)}
+    f2 = jfields([("i-id", ":integer"), ("a", ":string")])
+    row = {"kind": "row", "op": "row", "types": [":integer", ":string"], "names": [cps("i-id"), cps("a")],
+           "vals": [{"int": "3"}, {"str": cps("s@")}]}
+    errs = [u("a\\"), u("x" * 50 + "\\"), u("\\s" * 30 + "\\\\\\"), u("\\x"), u("ab\\\nc"),
+            {"kind": "split", "op": "split", "s": cps("a@\\")},
+            {"kind": "split", "op": "split", "s": cps("y" * 4100 + "\\\n")},
+            {"kind": "tsplit", "op": "tsplit", "fields": f2, "s": cps("1@a@b")},
+            {"kind": "tsplit", "op": "tsplit", "fields": f2, "s": cps("x@a")},
+            {"kind": "tsplit", "op": "tsplit", "fields": f2, "s": cps("1@\\")},
+            {"kind": "tjoin", "op": "tjoin", "fields": f2, "vals": [None]},
+            {"kind": "castint", "op": "cast", "dt": ":integer", "s": cps("1x")},
+            {"kind": "castdate", "op": "cast", "dt": ":date", "s": cps("1-foo-2003")},
+            {"kind": "castdate", "op": "cast", "dt": ":date", "s": cps("31-2-2003")},
+            dict(row, vals=[None], q={"kind": "iter"}), dict(row, q={"kind": "idx", "i": 5}),
+            dict(row, q={"kind": "name", "k": cps("zz")}),
+            dict(row, vals=[{"str": cps("q")}, None], q={"kind": "str"})]
+    normals = [u("sx"), u("nx"), u("\\\\s"), u("a"), u("\\sx"), u(""),
+               {"kind": "split", "op": "split", "s": cps("s@n@\\\\")},
+               {"kind": "join", "op": "join", "vs": [cps("a@"), None, cps("\\")]},
+               {"kind": "escape", "op": "escape", "s": cps("s@\n\\")},
+               {"kind": "castint", "op": "cast", "dt": ":integer", "s": cps("12")},
+               {"kind": "castdate", "op": "cast", "dt": ":date", "s": cps("1-2-2003 00:00:07")},
+               {"kind": "date", "op": "format", "dt": ":date", "v": {"date": [2003, 2, 1, 0, 0, 7]}},
+               {"kind": "tjoin", "op": "tjoin", "fields": f2, "vals": [None, {"str": cps("s")}]},
+               {"kind": "tsplit", "op": "tsplit", "fields": f2, "s": cps("7@n\\s\n")},
+               dict(row, q={"kind": "iter"}), dict(row, q={"kind": "str"}), dict(row, q={"kind": "name", "k": cps("a")})]
+    out = []
+    for e in errs:
+        out.append({"kind": "seq", "op": "seq", "steps": normals[:6] + [e] + normals + [e, e] + normals[:8]})
+    out.append({"kind": "seq", "op": "seq", "steps": errs + normals + errs[::-1] + normals[::-1]})
+    # long values and long records (look-ahead / chunk boundaries play no part here, but fast paths might)
+    for n in (41, 1000, 4097, 20000):
+        body = ("ab@\\\n s\\sn" * (n // 10 + 1))[:n]
+        enc = naive_escape(body)
+        out.append({"kind": "escape", "op": "escape", "s": cps(body)})
+        out.append({"kind": "unescape", "op": "unescape", "s": cps(enc)})
+        out.append({"kind": "unescape", "op": "unescape", "s": cps(enc + "\\")})
+        out.append({"kind": "unescape", "op": "unescape", "s": cps("\\q" + enc)})
+        out.append({"kind": "join", "op": "join", "vs": [cps(body), None, cps(body[::-1])]})
+        out.append({"kind": "split", "op": "split", "s": cps(enc + "@@" + enc + "\n")})
+    out.append({"kind": "join", "op": "join", "vs": [cps(str(i % 7) * (i % 3)) if i % 5 else None for i in range(1500)]})
+    out.append({"kind": "split", "op": "split", "s": cps("@".join("\\s" * (i % 3) for i in range(1500)))})
+    return out
+
+
+def fits(fields, vals):
+    return all(v is None or (t == ":integer" and type(v) is int) or (t == ":string" and type(v) is str)
+               or (t == ":date" and type(v) is datetime.datetime) for (_, t), v in zip(fields, vals))
+
+
+def read_back(fields, vals):
+    """what a fitting record reads back as: None -> the cast of the column default (coded attributes restated by hand),
+    '' -> None, everything else itself"""
+    want = []
+    for (name, t), v in zip(fields, vals):
+        if v is None:
+            d = CODED.get(name, "-1" if t == ":integer" else "")
+            want.append(int(d) if t == ":integer" else (d or None) if t == ":string" else None)
+        else:
+            want.append(None if v == "" else v)
+    return want
+
+
+def naive_format(name, t, v, coded=True):
+    """the documented text of a value in a column, restated: None -> default; a date-time in :date -> D-mon-YYYY with
+    ' HH:MM:SS' unless the time is midnight; everything else str(value)"""
+    if v is None:
+        dflt = "-1" if t == ":integer" else ""
+        return CODED.get(name, dflt) if coded else dflt
+    if t == ":date" and isinstance(v, datetime.datetime):
+        text = "%d-%s-%04d" % (v.day, MONTHS[v.month - 1], v.year)
+        if v.hour or v.minute or v.second:
+            text += " %02d:%02d:%02d" % (v.hour, v.minute, v.second)
+        return text
+    return str(v)
+
+
+def naive_escape(text):
+    return "".join({"\\": "\\\\", "\n": "\\n", "@": "\\s"}.get(c, c) for c in text)
 
 
 def fixed_cases():
@@ -376,24 +555,205 @@ def fixed_cases():
                  "1@a@1-foo-2001", "x@\\x@", "\\@@", "1_0@ @2001-06", "", "\n", "\n\n", "1@a@b\n\n"):
         out.append({"kind": "tsplit", "op": "tsplit", "fields": jfields(f3), "s": cps(line)})
         out.append({"kind": "tsplit", "op": "tsplit", "fields": [], "s": cps(line)})
+    out.extend(round6_cases())
+    out.extend(seq_cases())
+    return out
+
+
+def round6_cases():
+    """round 6: integers beyond 2^53 / 2^63, every zero/non-zero combination of hour, minute, second, a backslash
+    before a raw newline or another control character — each through format->cast, typed join/split, a row and a
+    file round trip; make_record; Row.__str__/__len__/keys and a count mismatch; format with default; line reading."""
+    out = []
+    fi = [("i-id", ":integer"), ("a", ":string"), ("i-wf", ":integer")]
+    for n in BIG_INTS:
+        out.append({"kind": "int", "op": "format", "dt": ":integer", "v": {"int": str(n)}})
+        out.append({"kind": "tjoin", "op": "tjoin", "fields": jfields(fi),
+                    "vals": [{"int": str(n)}, {"str": cps(str(n))}, {"int": str(-n)}]})
+        out.append({"kind": "tsplit", "op": "tsplit", "fields": jfields(fi), "s": cps("%d@%d@%d\n" % (n, n, n + 1))})
+        for t in (str(n), "+%d" % abs(n), "00%d" % abs(n), " %d " % n):
+            out.append({"kind": "castint", "op": "cast", "dt": ":integer", "s": cps(t)})
+        out.append({"kind": "row", "op": "row", "types": [t for _, t in fi], "names": [cps(x) for x, _ in fi],
+                    "vals": [{"int": str(n)}, {"str": cps(str(n))}, {"int": str(n + 1)}], "q": {"kind": "iter"}})
+    recs = [[{"int": str(n)}, {"str": cps(str(n))}, {"int": str(n - 1)}] for n in BIG_INTS]
+    for gz, via, app in ((False, "open", None), (True, "db", None), (False, "db", 7)):
+        out.append({"kind": "file", "op": "file", "fields": jfields(fi), "recs": recs, "gzip": gz, "append": app,
+                    "via": via})
+    fd = [("i-date", ":date"), ("a", ":string"), ("b", ":date")]
+    drecs = []
+    for (h, m, s_) in HMS_COMBOS:
+        for ymd in ((2001, 1, 1), (1999, 12, 31), (1000, 2, 28), (9999, 10, 9)):
+            d = list(ymd) + [h, m, s_]
+            out.append({"kind": "date", "op": "format", "dt": ":date", "v": {"date": d}})
+        d = [2004, 2, 29, h, m, s_]
+        d2 = [1993, 11, 3, s_ % 24, h, m]
+        out.append({"kind": "tjoin", "op": "tjoin", "fields": jfields(fd), "vals": [{"date": d}, None, {"date": d2}]})
+        for q in ({"kind": "iter"}, {"kind": "data"}, {"kind": "str"}, {"kind": "idx", "i": -1}):
+            out.append({"kind": "row", "op": "row", "types": [t for _, t in fd], "names": [cps(x) for x, _ in fd],
+                        "vals": [{"date": d}, {"str": cps("x")}, {"date": d2}], "q": q})
+        out.append({"kind": "fmt", "op": "format", "dt": ":string", "v": {"date": d}, "default": None})
+        drecs.append([{"date": d}, {"str": cps("%d:%d:%d" % (h, m, s_))}, {"date": d2}])
+    for gz, via, app in ((False, "db", None), (True, "open", None), (False, "open", 1)):
+        out.append({"kind": "file", "op": "file", "fields": jfields(fd), "recs": drecs, "gzip": gz, "append": app,
+                    "via": via})
+    for y, mo, d in ((2001, 1, 1), (1999, 12, 31), (2000, 2, 29), (1000, 1, 1), (9999, 12, 31)):
+        out.append({"kind": "dateobj", "op": "format", "dt": ":date", "v": {"date": [y, mo, d, 0, 0, 0]}})
+    # a backslash followed by a raw newline / control character / near miss, at the start, inside, at the end
+    fs = [("a", ":string")]
+    for c in AFTER_BS:
+        for t in ("\\" + c, "a\\" + c + "b", "\\" + c + "\\" + c, "\\\\" + c, "x@\\" + c + "@y", "\\" + c + "\n",
+                  "\\s\\" + c + "\\n"):
+            out.append({"kind": "unescape", "op": "unescape", "s": cps(t)})
+            out.append({"kind": "split", "op": "split", "s": cps(t)})
+        out.append({"kind": "tsplit", "op": "tsplit", "fields": jfields(fs), "s": cps("q\\" + c + "r")})
+        out.append({"kind": "escape", "op": "escape", "s": cps("\\" + c)})
+        out.append({"kind": "join", "op": "join", "vs": [cps("\\" + c), cps(c + "\\")]})
+    # strings with every line-boundary look-alike through a file (a value must never create or merge records)
+    nasty = ["a\nb", "\n", "\r", "a\r\nb", "\x0b\x0c", "\x1c\x1d\x1e\x1f", "\x85", "\u2028x\u2029", "@", "\\", "\\n", "\\s@",
+             "", "x\n\n", "\n@\n"]
+    srecs = [[{"str": cps(a)}, {"str": cps(b)}] for a, b in zip(nasty, nasty[1:] + nasty[:1])]
+    f2 = [("i-input", ":string"), ("b", ":string")]
+    for gz, via, app in ((False, "open", None), (False, "db", None), (True, "db", None), (False, "db", 3),
+                         (False, "open", 0), (False, "open", len(srecs))):
+        out.append({"kind": "file", "op": "file", "fields": jfields(f2), "recs": srecs, "gzip": gz, "append": app,
+                    "via": via})
+    # the encoding option through every writing and reading path (write, open, Database[...], select_from, _select_raw)
+    for enc in ("utf-8", "utf-16-le", "utf-32-be"):
+        for gz, via, app in ((False, "db", None), (True, "open", None), (False, "db", 2)):
+            out.append({"kind": "file", "op": "file", "fields": jfields(f2), "recs": srecs, "gzip": gz, "append": app,
+                        "via": via, "encoding": enc})
+    lrecs = [[{"str": cps(a)}, {"str": cps(b)}] for a, b in
+             (("\xe9", "\xff"), ("\x85", "\xa0"), ("a\nb", "\r"), ("\xc3\xa9", "@\\"), ("", "\x80"))]
+    for gz, via, app in ((False, "db", None), (True, "db", None), (False, "open", 1)):
+        out.append({"kind": "file", "op": "file", "fields": jfields(f2), "recs": lrecs, "gzip": gz, "append": app,
+                    "via": via, "encoding": "latin-1"})
+    # repeated field names: columns are addressed by position, never merged by name
+    fdup = [("a", ":integer"), ("a", ":string"), ("i-wf", ":integer"), ("a", ":date"), ("i-wf", ":string")]
+    vdup = [{"int": "1"}, {"str": cps("x")}, None, {"date": [2001, 2, 3, 0, 0, 4]}, None]
+    out.append({"kind": "tjoin", "op": "tjoin", "fields": jfields(fdup), "vals": vdup})
+    out.append({"kind": "tsplit", "op": "tsplit", "fields": jfields(fdup), "s": cps("1@x@@3-feb-2001 00:00:04@\n")})
+    out.append({"kind": "tsplit", "op": "tsplit", "fields": jfields(fdup[:2]), "s": cps("1@x")})
+    for via in ("open", "db"):
+        out.append({"kind": "file", "op": "file", "fields": jfields(fdup), "recs": [vdup, [None] * 5, vdup], "gzip": False,
+                    "append": None, "via": via})
+    out.append({"kind": "mkrec", "op": "mkrec", "fields": jfields(fdup),
+                "colmap": [{"k": cps("a"), "v": {"int": "1"}}, {"k": cps("i-wf"), "v": None}]})
+    # boundary shapes of a file: no record, one record, one column, None everywhere, wrong counts at every position
+    for recs_ in ([], [[None, None]], [[{"str": []}, {"str": []}]], [[None, None]] * 3,
+                  [[{"str": cps("a")}]], [[{"str": cps("a")}, None, None]],
+                  [[None, None], [None]], [[None], [None, None]], [[None, None], [None, None], []]):
+        for gz in (False, True):
+            out.append({"kind": "file", "op": "file", "fields": jfields(f2), "recs": recs_, "gzip": gz,
+                        "append": None, "via": "db"})
+        out.append({"kind": "file", "op": "file", "fields": jfields(f2), "recs": recs_, "gzip": False,
+                    "append": 1, "via": "open"})
+        out.append({"kind": "file", "op": "file", "fields": [], "recs": recs_, "gzip": False, "append": None,
+                    "via": "open"})
+    for name in ("i-wf", "polarity", "a"):
+        for t in DTYPES:
+            out.append({"kind": "file", "op": "file", "fields": jfields([(name, t)]),
+                        "recs": [[None], [{"str": []}], [{"int": "0"}], [None]], "gzip": False, "append": None,
+                        "via": "db"})
+    for text in ("", "\n", "a", "a\n", "a\nb", "\n\n", "a\rb\n", "a\r\nb", "a\x85b\u2028c\n", "\x0b\x0c\x1c\x1d\x1e\n\x1f",
+                 "@\n@", "\r", "\r\r\n\r"):
+        for gz in (False, True):
+            out.append({"kind": "lines", "op": "lines", "s": cps(text), "gzip": gz})
+    # make_record: missing, present, present-with-None, extra keys, repeated field names, empty ends
+    f4 = [("i-id", ":integer"), ("i-input", ":string"), ("i-id", ":integer"), ("i-date", ":date")]
+    pairs = [("i-input", {"str": cps("x@y")}), ("i-id", {"int": "7"}), ("zz", {"int": "1"}), ("i-date", None),
+             ("", {"str": cps("e")})]
+    for k in range(len(pairs) + 1):
+        for flds in (f4, f4[:1], [], [("", ":string"), ("zz", ":integer")]):
+            out.append({"kind": "mkrec", "op": "mkrec", "fields": jfields(flds),
+                        "colmap": [{"k": cps(a), "v": b} for a, b in pairs[:k]]})
+            out.append({"kind": "mkrec", "op": "mkrec", "fields": jfields(flds),
+                        "colmap": [{"k": cps(a), "v": b} for a, b in reversed(pairs[k:])]})
+    # Row: __str__, __len__, keys, count mismatch; None in coded-attribute columns; a value of the wrong type
+    types = [":integer", ":string", ":date", ":integer", ":string"]
+    names = ["i-id", "i-difficulty", "i-date", "i-wf", "polarity"]
+    for vals in ([{"int": "7"}, {"str": cps("x@y\n\\")}, {"date": [2001, 1, 1, 0, 0, 5]}, {"int": "0"}, {"str": cps("z")}],
+                 [None] * 5, [{"int": "-1"}, {"str": []}, None, None, {"str": []}],
+                 [{"str": cps("x")}, {"int": "5"}, {"int": "5"}, {"date": [2001, 1, 1, 0, 0, 0]}, {"date": [2001, 1, 1, 0, 0, 0]}],
+                 [None] * 4, [None] * 6, []):
+        for q in ({"kind": "str"}, {"kind": "len"}, {"kind": "keys"}, {"kind": "iter"}, {"kind": "data"},
+                  {"kind": "idx", "i": 0}, {"kind": "name", "k": cps("i-wf")}):
+            out.append({"kind": "row", "op": "row", "types": types, "names": [cps(x) for x in names], "vals": vals,
+                        "q": q})
+    # names that are NOT coded attributes although they look like one (case, blanks): the plain default applies
+    for name in ("I-WF", "Polarity", "i-wf ", " i-difficulty", "i_wf", "i-wf\n"):
+        for t in DTYPES:
+            out.append({"kind": "tjoin", "op": "tjoin", "fields": jfields([(name, t), ("i-wf", t)]), "vals": [None, None]})
+            out.append({"kind": "row", "op": "row", "types": [t], "names": [cps(name)], "vals": [None],
+                        "q": {"kind": "str"}})
+    # falsy values that are not None: 0 and '' through format, typed and untyped join, make_record, a row, a file
+    small = [{"int": str(i)} for i in range(-3, 13)]
+    for v in small:
+        out.append({"kind": "int", "op": "format", "dt": ":integer", "v": v})
+    fz = [("i-id", ":integer"), ("i-wf", ":integer"), ("i-difficulty", ":string"), ("b", ":string")]
+    zero = [{"int": "0"}, {"int": "0"}, {"str": []}, {"str": cps("0")}]
+    out.append({"kind": "tjoin", "op": "tjoin", "fields": jfields(fz), "vals": zero})
+    out.append({"kind": "tjoin", "op": "tjoin", "fields": [], "vals": zero + [None]})
+    out.append({"kind": "row", "op": "row", "types": [t for _, t in fz], "names": [cps(x) for x, _ in fz], "vals": zero,
+                "q": {"kind": "iter"}})
+    out.append({"kind": "row", "op": "row", "types": [t for _, t in fz], "names": [cps(x) for x, _ in fz], "vals": zero,
+                "q": {"kind": "str"}})
+    out.append({"kind": "mkrec", "op": "mkrec", "fields": jfields(fz),
+                "colmap": [{"k": cps(n_), "v": v} for (n_, _), v in zip(fz, zero)]})
+    for flds in (fz, []):
+        out.append({"kind": "file", "op": "file", "fields": jfields(flds), "recs": [zero, [None] * 4, zero],
+                    "gzip": False, "append": None, "via": "open"})
+    # values ending in blanks / tabs / CR in the last column of a record, through a file
+    tails = [" ", "x ", "\t", "x\t", "\r", "x\r", " x", "\x0c", "x\x1f", "\xa0", "x\u2003"]
+    trecs = [[{"str": cps(t_)}, {"str": cps(t_)}] for t_ in tails]
+    for via in ("open", "db"):
+        out.append({"kind": "file", "op": "file", "fields": jfields([("a", ":string"), ("b", ":string")]), "recs": trecs,
+                    "gzip": False, "append": None, "via": via})
+    for t_ in tails:
+        out.append({"kind": "join", "op": "join", "vs": [cps(t_), cps(t_)]})
+        out.append({"kind": "str", "op": "format", "dt": ":string", "v": {"str": cps(t_)}})
+    # cast: an unknown datatype is a TSDBError (but '' / None are None before the datatype is looked at), a raw value
+    # that is not a string is a TypeError — never a guess
+    for dt in (":foo", "", ":Integer", "integer", ":date ", ":float"):
+        for raw in ("1", "", "x", None, 1):
+            out.append({"kind": "castbad", "dt": dt, "raw": raw})
+    for dt in DTYPES:
+        out.append({"kind": "castbad", "dt": dt, "raw": 1})
+        out.append({"kind": "castbad", "dt": dt, "raw": None})
+    # format: explicit default for None in every datatype; default ignored for a value; non-fitting values
+    for dt in DTYPES:
+        for d in (None, "", "1", "-1", "x@y"):
+            for v in (None, {"int": "5"}, {"str": []}, {"str": cps("s")}, {"date": [2001, 1, 1, 0, 0, 0]},
+                      {"date": [2001, 1, 1, 0, 0, 7]}):
+                out.append({"kind": "fmt", "op": "format", "dt": dt, "v": v, "default": None if d is None else cps(d)})
     return out
 
 
 class C08(Check):
     pid = "C08"
-    quick_cases = 6000
+    quick_cases = 9000
     thorough_cases = 150000
     rule = ("fixed batteries in every run (backslash runs 1-9 at the end of a value, backslash before a raw newline, "
             "U+001C-001F inside values through every operation, int() spellings with blanks/underscores/signs, "
             "day-less numeric-month dates, \\s separators, today/now, times 00:00:SS, rows with a repeated name and "
             "None/'' in every column by every index -7..6, every name, 337 slices incl. negative and reversed, "
             "iteration; typed join/split for every datatype x {None, fitting, ''} x {plain, coded-attribute name} and "
-            "wrong column counts); then strings over an alphabet weighted towards \\ @ s n LF CR U+001F NEL NUL plus "
+            "wrong column counts; round 6: integers around 2^31/2^53/2^63/2^64/2^127 and -3..12 through format->cast, "
+            "typed join/split, a row and a file; all 36 zero/non-zero combinations of hour/minute/second with boundary "
+            "values likewise; a backslash before each control character 0-31, DEL, NEL, NBSP, LS, PS and near misses "
+            "S N t r 0 @ in unescape/split/typed split; relation files written by tsdb.write (one call / write+append, "
+            "plain / gzip, encodings default utf-8 latin-1 utf-16-le utf-32-be) and read back by tsdb.open+split, "
+            "Database[...] raw and autocast, select_from(cast) and _select_raw, with values holding LF CR VT FF FS-US NEL "
+            "LS PS, trailing blanks, 0 and '' , repeated field names, 0/1/many records and wrong counts at every "
+            "position; line reading of arbitrary text; make_record with missing/extra/None/falsy entries; Row str/len/"
+            "keys/==, count mismatch, look-alike names of coded attributes; format with explicit default and "
+            "non-fitting values; date objects; sequences of calls in one case (each error path followed by normal "
+            "calls, repeated calls must agree); values of 41-20000 characters and records of 1500 columns); then strings over an alphabet weighted towards \\ @ s n LF CR U+001F NEL NUL plus "
             "arbitrary Unicode (exhaustive over {\\,@,s,n,LF,a} up to length 4 quick / 5 thorough); records of 1-6 "
             "values or None; integers incl. huge/negative; int() texts over digits _ + - blank TAB LF VT U+001F a NBSP; "
             "finite floats from random bit patterns; date-times 1000-9999 in every documented spelling (the proved "
             "family of Spelling.lean); typed records of 0-5 fields with right/wrong counts and fitting/non-fitting "
-            "values; rows addressed by index, slice, name, iteration. A case is non-trivial if its input is "
+            "values; rows addressed by index, slice, name, iteration, str, len, keys (some with non-fitting values or a "
+            "count mismatch); random files, make_record, format-with-default and line-reading cases. A case is non-trivial if its input is "
             "non-empty; distinct by its JSON text.")
     assumptions = [
         "float clause is decided by the direct oracle only (CPython repr is not modelled)",
@@ -405,9 +765,10 @@ class C08(Check):
     trusted_base = ["hand-written model lean/Verif/C08/Model.lean, tied to delphin.tsdb/itsdb by the correspondence run",
                     "generated tables tsdbEscapes, fieldDelimiter, monthNames, monthNumbers read from the live module",
                     "source translator harness/common/py2lean.py + lean/Verif/Common/PyRt.lean (TRANSLATOR.md) for the "
-                    "*_translated theorems (escape, unescape, untyped split/join)"]
+                    "*_translated theorems (escape, unescape, untyped split/join, make_record)",
+                    "file system, gzip and codecs: a relation file is modelled as its decoded text (writeText/linesOf)"]
 
-    props_modules = ["Verif.C08.Props", "Verif.C08.Translated"]
+    props_modules = ["Verif.C08.Props", "Verif.C08.PropsFile", "Verif.C08.Translated"]
 
     def translation_specs(self):
         from .common import py2lean as P
@@ -417,13 +778,19 @@ class C08(Check):
             P.Spec(tsdb.unescape, "unescape", [("string", P.STR)], P.STR),
             P.Spec(tsdb.split, "split", [("line", P.STR)], raw, fixed={"fields": None}),
             P.Spec(tsdb.join, "join", [("values", raw)], P.STR, fixed={"fields": None}),
+            # make_record: the value type is opaque (the model's Val, declared in Model.lean), a field is the mirror
+            # structure PyField (attribute names = Lean field names)
+            P.Spec(tsdb.make_record, "make_record",
+                   [("colmap", P.Dict(P.STR, P.Struct("Verif.C08.Val", {}))),
+                    ("fields", P.Lst(P.Struct("Verif.C08.PyField", {"name": P.STR, "datatype": P.STR})))],
+                   P.Lst(P.Opt(P.Struct("Verif.C08.Val", {})))),
         ]
 
     def translations(self):
         """Source translation (harness/common/py2lean.py, TRANSLATOR.md): the current source text of these functions
         becomes lean/Verif/Generated/TransC08.lean; lean/Verif/C08/Translated.lean proves each equal to the model's."""
         from .common import py2lean as P
-        return P.translate_module(self.translation_specs(), "Verif.Trans.C08")
+        return P.translate_module(self.translation_specs(), "Verif.Trans.C08", imports=["Verif.C08.Model"])
 
     def tables(self):
         """Pins: the string/number constants of the anchored functions that the hand-written model mirrors
@@ -481,7 +848,7 @@ class C08(Check):
         bounds = {"escape": (0, .12), "unescape": (.12, .24), "split": (.24, .34), "join": (.34, .5),
                   "int": (.5, .58), "castint": (.58, .64), "float": (.64, .70), "date": (.70, .78),
                   "castdate": (.78, .86), "str": (.86, .89), "row": (.89, .95),
-                  "typed": (.95, 1.0)}
+                  "typed": (.95, .975), "file": (.975, 1.0)}
         for _ in range(n):
             r = rng.random()
             if kinds:
@@ -534,8 +901,12 @@ class C08(Check):
                 yield {"kind": "str", "op": "format", "dt": ":string", "v": {"str": cps(gen_string(rng, 8))}}
             elif r < 0.95:
                 yield gen_row(rng)
-            else:
+            elif r < 0.975:
                 yield gen_typed(rng)
+            else:
+                r2 = rng.random()
+                yield (gen_file(rng) if r2 < 0.45 else gen_mkrec(rng) if r2 < 0.7 else gen_fmt(rng) if r2 < 0.9
+                       else gen_lines(rng))
 
     def search_cases(self, rng, tier, n, seeds):
         # every one-character escape: a newly accepted (or newly rejected) escape letter has a two-character witness
@@ -544,8 +915,8 @@ class C08(Check):
         kinds = sorted({c["kind"] for c in seeds if c["kind"] in
                         ("escape", "unescape", "split", "join", "int", "castint", "float", "date", "castdate",
                          "str", "row")})
-        if any(c["kind"] in ("tjoin", "tsplit") for c in seeds):
-            kinds = sorted(set(kinds) | {"typed", "join", "split"})
+        if any(c["kind"] in ("tjoin", "tsplit", "file", "mkrec", "fmt", "lines", "dateobj") for c in seeds):
+            kinds = sorted(set(kinds) | {"typed", "join", "split", "file", "date", "int"})
         if any(c["kind"] in ("castdate", "spelling", "date") for c in seeds):
             kinds = sorted(set(kinds) | {"date", "castdate"})
             for y in (1992, 1993, 1994, 2091, 2092, 2093, 2000, 1900, 1000, 9999):
@@ -557,6 +928,8 @@ class C08(Check):
     # ---- implementation
     def impl(self, case):
         k = case["kind"]
+        if k == "seq":
+            return [self.impl(step) for step in case["steps"]]
         if k == "escape":
             return cps(tsdb.escape(uncps(case["s"])))
         if k == "unescape":
@@ -574,6 +947,52 @@ class C08(Check):
             return cps(tsdb.join(vs))
         if k in ("int", "date", "str"):
             return cps(tsdb.format(case["dt"], py_val(case["v"])))
+        if k == "castbad":
+            try:
+                r = tsdb.cast(case["dt"], case["raw"])
+                return None if r is None else {"float": True} if isinstance(r, float) else j_val(r)
+            except tsdb.TSDBError:
+                return {"err": "TSDBError"}
+            except TypeError:
+                return {"err": "TypeError"}
+            except ValueError:
+                return {"err": "ValueError"}
+        if k == "dateobj":
+            y, mo, d = case["v"]["date"][:3]
+            return cps(tsdb.format(case["dt"], datetime.date(y, mo, d)))
+        if k == "fmt":
+            d = case["default"]
+            return cps(tsdb.format(case["dt"], py_val(case["v"]), default=None if d is None else uncps(d)))
+        if k == "mkrec":
+            fields = [tsdb.Field(uncps(f["name"]), f["dt"]) for f in case["fields"]]
+            colmap = {uncps(p_["k"]): py_val(p_["v"]) for p_ in case["colmap"]}
+            rec = tsdb.make_record(colmap, fields)
+            try:
+                line = {"ok": cps(tsdb.join(rec, fields))}
+            except tsdb.TSDBError:
+                line = {"err": "TSDBError"}
+            return {"rec": [j_val(x) for x in rec], "line": line}
+        if k == "file":
+            rich = self.file_rich(case)
+            self._rich = (id(case), rich)
+            if "err" in rich:
+                return {"err": rich["err"]}
+            return {"text": cps(rich["text"]), "lines": rich["lines"], "raw": rich[case["via"] + "_raw"],
+                    "typed": rich[case["via"] + "_typed"]}
+        if k == "lines":
+            d = tempfile.mkdtemp(dir="/var/tmp", prefix="c08-")
+            try:
+                data = uncps(case["s"]).encode("utf-8")
+                if case.get("gzip"):
+                    with _gzip.open(os.path.join(d, "rel.gz"), "wb") as f:
+                        f.write(data)
+                else:
+                    with open(os.path.join(d, "rel"), "wb") as f:
+                        f.write(data)
+                with tsdb.open(d, "rel") as f:
+                    return [cps(line) for line in f]
+            finally:
+                shutil.rmtree(d, ignore_errors=True)
         if k in ("castint", "castdate", "spelling"):
             r = do_cast(case["dt"], uncps(case["s"]))
             if case["dt"] == ":date" and re.match(r":?(today|now)", uncps(case["s"])) and isinstance(r, dict) \
@@ -606,7 +1025,10 @@ class C08(Check):
             return cps(tsdb.format(":float", x))
         if k == "row":
             fields = [tsdb.Field(uncps(nm), t) for nm, t in zip(case["names"], case["types"])]
-            row = itsdb.Row(fields, [py_val(v) for v in case["vals"]])
+            try:
+                row = itsdb.Row(fields, [py_val(v) for v in case["vals"]])
+            except tsdb.TSDBError:       # itsdb.ITSDBError: count mismatch
+                return {"err": "TSDBError"}
             q = case["q"]
 
             def jc(f):
@@ -622,6 +1044,13 @@ class C08(Check):
                     return {"err": "ValueError"}
             if q["kind"] == "iter":
                 return jc(lambda: [j_val(x) for x in row])
+            if q["kind"] == "str":
+                r = jc(lambda: {"ok": cps(str(row))})
+                return r
+            if q["kind"] == "len":
+                return len(row)
+            if q["kind"] == "keys":
+                return [cps(x) for x in row.keys()]
             if q["kind"] == "data":
                 return [cps(x) for x in row.data]
             if q["kind"] == "idx":
@@ -632,6 +1061,80 @@ class C08(Check):
                 return jc(lambda: [j_val(x) for x in row[slice(q["start"], q["stop"], q["step"])]])
         raise ValueError(k)
 
+    def file_rich(self, case):
+        """write the records with tsdb.write (one call, or write + append; plain or gzip) and read the relation back
+        through every reading path; everything observed, for the observation (impl) and for the oracle."""
+        fields = [tsdb.Field(uncps(f["name"]), f["dt"]) for f in case["fields"]]
+        recs = [[py_val(v) for v in r] for r in case["recs"]]
+        d = tempfile.mkdtemp(dir="/var/tmp", prefix="c08-")
+
+        def guard(f):
+            try:
+                with warnings.catch_warnings():
+                    warnings.simplefilter("ignore")
+                    return {"ok": f()}
+            except tsdb.TSDBError:
+                return {"err": "TSDBError"}
+            except ValueError:
+                return {"err": "ValueError"}
+            except KeyError:
+                return {"err": "KeyError"}
+            except IndexError:
+                return {"err": "IndexError"}
+            except UnicodeError:
+                return {"err": "UnicodeError"}
+
+        def jrec(rec):
+            return [j_val(x) for x in rec]
+
+        def typed(recs_):
+            recs_ = list(recs_)
+            if any(isinstance(x, datetime.datetime) and x.microsecond for r in recs_ for x in r):
+                raise KeyError("now")       # never generated; keeps the observation a function of the input
+            return [jrec(r) for r in recs_]
+        try:
+            if fields:
+                tsdb.write_schema(d, {"rel": fields})
+            enc = case.get("encoding")
+            ekw = {"encoding": enc} if enc else {}
+            try:
+                if case["append"] is None:
+                    tsdb.write(d, "rel", recs, fields, gzip=case["gzip"], **ekw)
+                else:
+                    tsdb.write(d, "rel", recs[:case["append"]], fields, **ekw)
+                    tsdb.write(d, "rel", recs[case["append"]:], fields, append=True, **ekw)
+            except tsdb.TSDBError:
+                return {"err": "TSDBError", "left": sorted(x for x in os.listdir(d) if x != "relations")}
+            names = sorted(x for x in os.listdir(d) if x != "relations")
+            if names == ["rel.gz"]:
+                with _gzip.open(os.path.join(d, "rel.gz"), "rb") as f:
+                    data = f.read()
+            elif names == ["rel"]:
+                with open(os.path.join(d, "rel"), "rb") as f:
+                    data = f.read()
+            else:
+                data = b""
+            text = data.decode(enc or "utf-8")
+            out = {"text": text, "names": names}
+            with tsdb.open(d, "rel", **ekw) as f:
+                lines = list(f)
+            out["lines"] = len(lines)
+            out["open_raw"] = guard(lambda: [[None if x is None else cps(x) for x in tsdb.split(ln)] for ln in lines])
+            out["open_typed"] = guard(lambda: typed(tsdb.split(ln, fields) for ln in lines))
+            if fields:
+                out["db_raw"] = guard(lambda: [[None if x is None else cps(x) for x in r]
+                                               for r in tsdb.Database(d, **ekw)["rel"]])
+                out["db_typed"] = guard(lambda: typed(tsdb.Database(d, autocast=True, **ekw)["rel"]))
+                out["select"] = guard(lambda: typed(tsdb.Database(d, **ekw).select_from("rel", cast=True)))
+                out["select_auto"] = guard(lambda: typed(tsdb.Database(d, autocast=True, **ekw).select_from("rel")))
+                out["select_raw"] = guard(lambda: [[None if x is None else cps(x) for x in r]
+                                                   for r in tsdb.Database(d, **ekw)._select_raw("rel")])
+            return out
+        except UnicodeError:
+            return {"err": "UnicodeError"}      # a reading path that ignores the encoding it was given
+        finally:
+            shutil.rmtree(d, ignore_errors=True)
+
     def setup(self):
         self.tie = {}
 
@@ -639,15 +1142,33 @@ class C08(Check):
         self.tie[key] = self.tie.get(key, 0) + 1
 
     def model_request(self, case):
-        if case["kind"] == "float":
-            self._count("no-request:float")
+        if case["kind"] in ("float", "castbad"):
+            self._count("no-request:" + case["kind"])
             return None
-        return {k: v for k, v in case.items() if k not in ("kind", "denotes")}
+        if case["kind"] == "seq":
+            return {"op": "seq", "steps": [self.model_request(step) for step in case["steps"]]}
+        if case["kind"] == "file":
+            return {"op": "file", "fields": case["fields"], "recs": case["recs"]}
+        return {k: v for k, v in case.items() if k not in ("kind", "denotes", "gzip")}
 
     def model_compare(self, case, expected, answer):
+        if case["kind"] == "seq":
+            if not (isinstance(answer, list) and isinstance(expected, list) and len(answer) == len(expected)
+                    == len(case["steps"])):
+                return "seq: shapes differ"
+            for i, (st, e, a) in enumerate(zip(case["steps"], expected, answer)):
+                d = self.model_compare(st, e, a)
+                if d:
+                    return "step %d (%s): %s" % (i, st["kind"], d)
+            return None
         kind = case["kind"] + (":" + case["q"]["kind"] if case["kind"] == "row" else "")
         unmod = (isinstance(answer, dict) and answer.get("err") == "unmodelled") or \
                 (isinstance(answer, list) and any(isinstance(a, dict) and a.get("err") == "unmodelled" for a in answer))
+        if case["kind"] == "file" and isinstance(answer, dict) and answer.get("typed") == {"err": "unmodelled"}:
+            # a typed cell outside the cast model (non-ASCII digits ...): text, line count and raw records are compared
+            self._count("unmodelled:file-typed")
+            expected = dict(expected, typed=None) if isinstance(expected, dict) else expected
+            answer = dict(answer, typed=None)
         if unmod:
             # the model declines: counted per kind together with what the implementation did there
             self._count("unmodelled:" + kind)
@@ -673,6 +1194,17 @@ class C08(Check):
 
         def fail(clause, detail):
             fails.append({"clause": clause, "detail": detail})
+        if k == "seq":
+            seen = {}
+            for i, (st, r) in enumerate(zip(case["steps"], res)):
+                for f in self.oracle(st, r):
+                    fail(f["clause"], "step %d of a sequence of calls: %s" % (i, f["detail"]))
+                key = json.dumps(st, sort_keys=True)
+                if key in seen and seen[key] != r:
+                    fail("the same call gives different answers within one process",
+                         repr((i, st, seen[key], r)))
+                seen.setdefault(key, r)
+            return fails
         if k == "escape":
             s = uncps(case["s"])
             e = uncps(res)
@@ -754,16 +1286,12 @@ class C08(Check):
                     fail("joined line contains a raw newline", repr(line))
                 if vals and line.count("@") != len(vals) - 1:
                     fail("joined line does not have exactly one delimiter per column boundary", repr((vals, line)))
-                fits = all(v is None or (t == ":integer" and type(v) is int) or (t == ":string" and type(v) is str)
-                           or (t == ":date" and isinstance(v, datetime.datetime)) for (_, t), v in zip(fields, vals))
-                if fields and fits:
-                    want = []
-                    for (name, t), v in zip(fields, vals):
-                        if v is None:
-                            d = CODED.get(name, "-1" if t == ":integer" else "")
-                            want.append(int(d) if t == ":integer" else (d or None) if t == ":string" else None)
-                        else:
-                            want.append(None if v == "" else v)
+                if fields:
+                    wline = "@".join(naive_escape(naive_format(n_, t_, v_)) for (n_, t_), v_ in zip(fields, vals))
+                    if line != wline:
+                        fail("typed join differs from the documented text of its values", repr((fields, vals, line, wline)))
+                if fields and fits(fields, vals):
+                    want = read_back(fields, vals)
                     tf = [tsdb.Field(a_, b_) for a_, b_ in fields]
                     for suffix in ("", "\n"):
                         try:
@@ -791,16 +1319,39 @@ class C08(Check):
             # the row exposes exactly the cast of its stored raw data
             fields = [tsdb.Field(uncps(nm), t) for nm, t in zip(case["names"], case["types"])]
             vals = [py_val(v) for v in case["vals"]]
-            raws = [tsdb.format(f.datatype, v) for f, v in zip(fields, vals)]
+            q = case["q"]
+            n = len(fields)
+            if len(vals) != n:
+                if res != {"err": "TSDBError"}:
+                    fail("Row accepts a wrong number of values", repr((n, len(vals), res)))
+                return fails
+            raws = [naive_format(f.name, f.datatype, v, coded=False) for f, v in zip(fields, vals)]
 
             def c(i):
                 return do_cast(fields[i].datatype, raws[i])
-            q = case["q"]
-            n = len(fields)
+
+            def first_err(want):
+                if isinstance(want, list) and any(isinstance(w, dict) and "err" in w for w in want):
+                    return next(w for w in want if isinstance(w, dict) and "err" in w)
+                return want
             if q["kind"] == "iter":
                 want = [c(i) for i in range(n)]
             elif q["kind"] == "data":
                 want = [cps(r) for r in raws]
+            elif q["kind"] == "len":
+                want = n
+            elif q["kind"] == "keys":
+                want = [cps(f.name) for f in fields]
+            elif q["kind"] == "str":
+                cells = first_err([c(i) for i in range(n)])
+                if isinstance(cells, dict):
+                    want = cells
+                else:
+                    with warnings.catch_warnings():
+                        warnings.simplefilter("ignore")
+                        cast_vals = [tsdb.cast(f.datatype, r) for f, r in zip(fields, raws)]
+                    want = {"ok": cps("@".join(naive_escape(naive_format(f.name, f.datatype, v))
+                                               for f, v in zip(fields, cast_vals)))}
             elif q["kind"] == "idx":
                 want = c(range(n)[q["i"]]) if -n <= q["i"] < n else {"err": "IndexError"}
             elif q["kind"] == "name":
@@ -812,14 +1363,175 @@ class C08(Check):
                     want = {"err": "ValueError"}
                 else:
                     want = [c(i) for i in range(n)[slice(q["start"], q["stop"], q["step"])]]
-            if isinstance(want, list) and any(isinstance(w, dict) and "err" in w for w in want):
-                want = next(w for w in want if isinstance(w, dict) and "err" in w)
+            want = first_err(want)
             if res != want:
                 fail("row access differs from the cast of its stored raw data", repr((q, want, res)))
+            if q["kind"] == "iter" and isinstance(res, list):
+                # equality and length go through the same iteration
+                row = itsdb.Row(fields, vals)
+                with warnings.catch_warnings():
+                    warnings.simplefilter("ignore")
+                    tup = tuple(tsdb.cast(f.datatype, r) for f, r in zip(fields, raws))
+                    if not (row == tup) or not (row == list(tup)) or row == tup + (None,) or len(row) != n \
+                            or (n and row == tup[:-1]):
+                        fail("row equality / length differ from its iteration", repr((tup, len(row))))
+        elif k == "castbad":
+            dt, raw = case["dt"], case["raw"]
+            if raw is None or raw == "":
+                want = None
+            elif not isinstance(raw, str):
+                want = {"err": "TypeError"}
+            elif dt == ":float":
+                want = {"float": True} if raw == "1" else {"err": "ValueError"}
+            elif dt in DTYPES:
+                want = res
+            else:
+                want = {"err": "TSDBError"}
+            if res != want:
+                fail("cast guesses on an unknown datatype or a non-string raw value", repr((dt, raw, res, want)))
+        elif k == "dateobj":
+            y, mo, d = case["v"]["date"][:3]
+            with warnings.catch_warnings():
+                warnings.simplefilter("ignore")
+                back = tsdb.cast(":date", uncps(res))
+            if back != datetime.datetime(y, mo, d):
+                fail("cast(format(date)) is not midnight of that date", repr((y, mo, d, uncps(res), back)))
+        elif k == "fmt":
+            v = py_val(case["v"])
+            dflt = None if case["default"] is None else uncps(case["default"])
+            t = case["dt"]
+            if v is None:
+                want = dflt if dflt is not None else ("-1" if t == ":integer" else "")
+            else:
+                want = naive_format("", t, v)
+            if uncps(res) != want:
+                fail("format differs from the documented text", repr((t, v, dflt, uncps(res), want)))
+        elif k == "mkrec":
+            fields = [(uncps(f["name"]), f["dt"]) for f in case["fields"]]
+            pairs = [(uncps(p_["k"]), p_["v"]) for p_ in case["colmap"]]
+            want = []
+            for name, _ in fields:
+                hit = [v for k_, v in pairs if k_ == name]
+                want.append(hit[-1] if hit else None)
+            if res["rec"] != want:
+                fail("make_record does not pick the column values by field name", repr((fields, pairs, res["rec"])))
+            if fields and "ok" not in res["line"]:
+                fail("join rejects a made record", repr((fields, pairs, res)))
+        elif k == "lines":
+            text = uncps(case["s"])
+            lines = [uncps(x) for x in res]
+            want = re.findall(r"[^\n]*\n|[^\n]+", text)       # cut after each newline, and only there
+            if lines != want:
+                fail("file lines are not the text cut after each newline and only there", repr((text, lines)))
+        elif k == "file":
+            fields = [(uncps(f["name"]), f["dt"]) for f in case["fields"]]
+            recs = [[py_val(v) for v in r] for r in case["recs"]]
+            rich = self._rich[1] if getattr(self, "_rich", (None,))[0] == id(case) else self.file_rich(case)
+            bad_count = bool(fields) and any(len(r) != len(fields) for r in recs)
+            if bad_count:
+                if res != {"err": "TSDBError"}:
+                    fail("write accepts a record with a wrong number of values", repr((fields, recs, res)))
+                elif case["append"] is None and rich.get("left"):
+                    fail("a rejected write leaves a relation file behind", repr((recs, rich.get("left"))))
+                return fails
+            if res == {"err": "UnicodeError"}:
+                fail("a writing or reading path ignores the encoding it was given", repr((case.get("encoding"), recs)))
+                return fails
+            if "err" in res:
+                fail("write rejects records with the right number of values", repr((fields, recs, res)))
+                return fails
+            text = rich["text"]
+            if text.count("\n") != len(recs) or res["lines"] != len(recs):
+                fail("a relation file does not hold exactly one line per record", repr((recs, text, res["lines"])))
+            want_gz = bool(case["gzip"] and recs)
+            if rich["names"] != (["rel.gz"] if want_gz else ["rel"]):
+                fail("write leaves other files than the requested one", repr(rich["names"]))
+            for ln, rec in zip(text.split("\n"), recs):
+                if rec and ln.count("@") != len(rec) - 1:
+                    fail("joined line does not have exactly one delimiter per column boundary", repr((rec, ln)))
+            if fields:
+                # every reading path tells the same
+                pairs_ = [("open_raw", "db_raw"), ("open_typed", "db_typed")]
+                if len({n_ for n_, _ in fields}) == len(fields):
+                    # select_from addresses columns by name: only comparable when the names are distinct
+                    pairs_ += [("open_raw", "select_raw"), ("open_typed", "select"), ("open_typed", "select_auto")]
+                for a, b in pairs_:
+                    if rich[a] != rich[b]:
+                        fail("reading paths disagree", repr((a, b, rich[a], rich[b])))
+                wraw = {"ok": [[(cps(x) if x else None) for x in
+                                (naive_format(n_, t_, v_) for (n_, t_), v_ in zip(fields, rec))] for rec in recs]}
+                if rich["open_raw"] != wraw:
+                    fail("raw records read from the file differ from the formatted values written",
+                         repr((fields, recs, rich["open_raw"], wraw)))
+                if all(fits(fields, rec) for rec in recs):
+                    want = {"ok": [[j_val(x) for x in read_back(fields, rec)] for rec in recs]}
+                    if rich["open_typed"] != want:
+                        fail("records read from the file differ from the records written (up to the default for None)",
+                             repr((fields, recs, rich["open_typed"], want)))
+            else:
+                wraw = {"ok": [[(cps(str(v)) if v is not None and str(v) != "" else None) for v in rec] or [None]
+                               for rec in recs]}
+                if rich["open_raw"] != wraw:
+                    fail("raw records read from the file differ from the values written", repr((recs, rich["open_raw"])))
         return fails
 
+    def stats(self, case, res, counters):
+        def inc(key):
+            counters[key] = counters.get(key, 0) + 1
+        k = case["kind"]
+        inc("kind:" + k)
+        if k == "seq":
+            inc("seq:steps=%s" % (len(case["steps"]) if len(case["steps"]) < 10 else "10+"))
+            for st, r in zip(case["steps"], res):
+                self.stats(st, r, counters)
+            return
+        if isinstance(res, dict) and "err" in res:
+            inc("%s:err=%s" % (k, res["err"]))
+        if k == "row":
+            inc("row:q=" + case["q"]["kind"])
+            if len(case["vals"]) != len(case["types"]):
+                inc("row:count-mismatch")
+        elif k == "file":
+            inc("file:%s:%s:via=%s" % ("gzip" if case["gzip"] else "plain",
+                                       "one-call" if case["append"] is None else "append", case["via"]))
+            inc("file:encoding=%s" % (case.get("encoding") or "default"))
+            inc("file:records=%s" % (len(case["recs"]) if len(case["recs"]) < 4 else "4+"))
+            if not case["fields"]:
+                inc("file:no-fields")
+        elif k == "mkrec":
+            names = {tuple(f["name"]) for f in case["fields"]}
+            keys = {tuple(p_["k"]) for p_ in case["colmap"]}
+            inc("mkrec:%s" % ("all-present" if names <= keys else "none-present" if not names & keys else "some-missing"))
+        elif k == "fmt":
+            inc("fmt:%s:%s" % ("None" if case["v"] is None else next(iter(case["v"])),
+                               "default" if case["default"] is not None else "no-default"))
+        vals = []
+        if k in ("int", "date", "fmt") and case.get("v"):
+            vals = [case["v"]]
+        elif k in ("tjoin", "row"):
+            vals = [v for v in case["vals"] if v]
+        elif k == "file":
+            vals = [v for r in case["recs"] for v in r if v]
+        for v in vals:
+            if "int" in v:
+                a = abs(int(v["int"]))
+                if a >= 2**63:
+                    inc(k + ":int>=2^63")
+                elif a >= 2**53:
+                    inc(k + ":int>=2^53")
+            elif "date" in v:
+                h, m, s_ = v["date"][3:]
+                inc("%s:hms=%s%s%s" % (k, "H" if h else "0", "M" if m else "0", "S" if s_ else "0"))
+        if k in ("unescape", "split", "tsplit"):
+            t = case["s"]
+            for i in range(len(t) - 1):
+                if t[i] == 92 and (t[i + 1] < 32 or t[i + 1] == 127):
+                    inc(k + ":backslash+control")
+                    break
+
     def nontrivial_key(self, case, res):
-        body = case.get("s") or case.get("vs") or case.get("v") or case.get("vals")
+        body = case.get("s") or case.get("vs") or case.get("v") or case.get("vals") or case.get("recs") \
+            or case.get("colmap") or case.get("fields") or case.get("steps") or case.get("dt")
         if not body:
             return None
         return super().nontrivial_key(case, res)
